@@ -26,6 +26,9 @@ type syncRun struct {
 	full    *world.Node
 	ih      uint64
 	top     uint64
+	// every p2pFaultEvery-th P2P delivery is preceded by one failing read of the P2P store (0 = never)
+	p2pFaultEvery int
+	p2pCount      int
 	cancel  context.CancelFunc
 	ctx     context.Context
 	wg      *sync.WaitGroup
@@ -276,6 +279,18 @@ func (s *syncRun) deliver(kind string, h uint64, via string) {
 		s.c.Tr.Emit("Deliver", world.F{"node": "full", "kind": kind, "h": int(h), "via": via, "dah": 0})
 		s.placed[evKey(kind, h)] = true
 		s.onP2P[evKey(kind, h)] = true
+		s.p2pCount++
+		faulted := false
+		if s.p2pFaultEvery > 0 && s.p2pCount%s.p2pFaultEvery == 0 {
+			faulted = true
+			// the node's first read of the store for this item fails once; the item stays in the store
+			s.c.Tr.Emit("P2PReadFault", world.F{"node": "full", "kind": kind, "h": int(h)})
+			if kind == "hdr" {
+				s.full.HStore.FailNextReads(1)
+			} else {
+				s.full.DStore.FailNextReads(1)
+			}
+		}
 		if kind == "hdr" {
 			s.full.HStore.AppendItem(s.headerOf(h))
 			s.p2pH++
@@ -290,6 +305,11 @@ func (s *syncRun) deliver(kind string, h uint64, via string) {
 			case m.VerifDataStoreCh() <- struct{}{}:
 			default:
 			}
+		}
+		if faulted {
+			// the item is in the store; the node polls the stores again on its own block-time ticker
+			synctest.Wait()
+			time.Sleep(3 * time.Second)
 		}
 	}
 	synctest.Wait()
@@ -624,6 +644,47 @@ func RunSyncCrashEnum(c *Ctx) {
 }
 
 // RunSyncRandom: longer chains, random permutations / duplications / channel splits, clean restarts.
+// RunSyncP2PAfterIdle: the node's polling of the P2P stores ticks for a while on stores that are still empty
+// (nothing has been gossiped yet), then the whole chain arrives over P2P only - for every initial height.
+func RunSyncP2PAfterIdle(c *Ctx) {
+	for _, ih := range []uint64{1, 2, 3} {
+		for _, order := range []string{"hdr-first", "data-first", "alternating"} {
+			synctest.Run(func() {
+				s := newSyncRun(c, fmt.Sprintf("p2pidle/ih%d/%s", ih, order), ih, SyncShapes["ShapeA"], world.F{"src": "p2pidle", "shape": "ShapeA"})
+				defer s.finish()
+				if s.startFull() != nil {
+					return
+				}
+				time.Sleep(2 * time.Second) // several polls of the empty stores
+				synctest.Wait()
+				switch order {
+				case "hdr-first":
+					for h := s.ih; h <= s.top; h++ {
+						s.deliver("hdr", h, "p2p")
+					}
+					for h := s.ih; h <= s.top; h++ {
+						s.deliver("data", h, "p2p")
+					}
+				case "data-first":
+					for h := s.ih; h <= s.top; h++ {
+						s.deliver("data", h, "p2p")
+					}
+					for h := s.ih; h <= s.top; h++ {
+						s.deliver("hdr", h, "p2p")
+					}
+				default:
+					for h := s.ih; h <= s.top; h++ {
+						s.deliver("hdr", h, "p2p")
+						s.deliver("data", h, "p2p")
+					}
+				}
+				s.settle()
+				c.Count("p2pidle", 1)
+			})
+		}
+	}
+}
+
 func RunSyncRandom(c *Ctx, runs int) {
 	rng := rand.New(rand.NewSource(c.Seed*31 + 5))
 	for r := 0; r < runs; r++ {
@@ -651,6 +712,34 @@ func RunSyncRandom(c *Ctx, runs int) {
 			s := newSyncRun(c, fmt.Sprintf("rand/%d", r), ih, shape, world.F{"src": "random", "shape": "random"})
 			defer s.finish()
 			if s.startFull() != nil {
+				return
+			}
+			if rng.Intn(2) == 0 {
+				s.p2pFaultEvery = 2 + rng.Intn(3)
+			}
+			if r%3 == 2 {
+				// P2P-heavy run: the sync services' stores fill in height order (as go-header fills them); headers and
+				// data arrive over P2P only, in runs of random length, some first reads of the store fail once
+				hN, dN := s.ih, s.ih
+				for hN <= s.top || dN <= s.top {
+					if (rng.Intn(2) == 0 && hN <= s.top) || dN > s.top {
+						for k := 1 + rng.Intn(3); k > 0 && hN <= s.top; k-- {
+							s.deliver("hdr", hN, "p2p")
+							hN++
+						}
+					} else {
+						for k := 1 + rng.Intn(3); k > 0 && dN <= s.top; k-- {
+							s.deliver("data", dN, "p2p")
+							dN++
+						}
+					}
+					if rng.Intn(10) == 0 && !s.isDown() {
+						s.stopFull(true)
+						s.startFull()
+					}
+				}
+				s.settle()
+				c.Count("randomruns", 1)
 				return
 			}
 			type ev struct {
